@@ -110,7 +110,7 @@ pub fn reset() {
 
 /// resets only the call monitors (between the macro side and the reference side of one program)
 pub fn reset_calls() {
-    unsafe { SEQ = 0; TRACE = 0; NCALLS = 0; CNT = [0; NEV]; FIRST = [0; NEV]; LAST = [0; NEV]; ARG = [0; NEV]; ARGX = [0; NEV]; }
+    unsafe { BLK = 0; SEQ = 0; TRACE = 0; NCALLS = 0; CNT = [0; NEV]; FIRST = [0; NEV]; LAST = [0; NEV]; ARG = [0; NEV]; ARGX = [0; NEV]; }
 }
 
 // ---------------------------------------------------------------------------------------------
@@ -276,6 +276,10 @@ pub fn call(id: usize, a: u8) {
     unsafe { TRACE = (TRACE << 5).wrapping_sub(TRACE).wrapping_add(((id as u32) << 8) | a as u32); NCALLS += 1; }
 }
 pub fn trace() -> u32 { unsafe { TRACE } }
+/// order-sensitive hash over the ids of evaluated operand blocks (separate from the callback trace: hoisting moves blocks in front of callbacks)
+pub static mut BLK: u32 = 0;
+pub fn blk(id: u8) { unsafe { BLK = (BLK << 5).wrapping_sub(BLK).wrapping_add(id as u32); } }
+pub fn blk_hash() -> u32 { unsafe { BLK } }
 pub fn ncalls() -> u16 { unsafe { NCALLS } }
 pub fn reset_trace() { unsafe { TRACE = 0; NCALLS = 0; } }
 pub use futures::future::ready;
